@@ -172,6 +172,13 @@ class Gen:
             if ev is not None:
                 self.verify(P, ev, r, s, "verify:valid-boundary:%s" % cls, expect="OK")
                 self.verify(P, (ev + 1) % M256, r, s, "verify:boundary-digest+1:%s" % cls, expect="ERR")
+        # t = r + s just below n: structured scalars for the windowed sm2_z256_point_mul(t, P)
+        for j in range(1, 41 if not self.thorough else 130):
+            s0 = 1 + self.rnd(N - 1); r0 = (N - j - s0) % N
+            if r0 == 0: continue
+            ev = self.make_valid(P, r0, s0)
+            if ev is not None:
+                self.verify(P, ev, r0, s0, "verify:valid:t=n-j:j%%8=%d" % (j % 8), expect="OK")
         # DESIGN 5 #1: s = n-70 goes through sm2_z256_point_mul_generator
         r, s = 1 + self.rnd(N - 1), N - 70
         ev = self.make_valid(P, r, s)
